@@ -41,7 +41,9 @@ CHECKS = {
              'is_remote_exception, remote text contains the originally formatted traceback), C15_forward_identical '
              '(forwarding hops return the identical exception), C15_text_grows, C15_ensemble (nested exceptions preserved '
              'hereditarily with identical text), C15_defined, C15_explicit_tb, C15_no_traceback hold for every class, '
-             'argument tuple, traceback text, cause chain, process name, hop list and nesting depth of the model. The model '
+             'argument tuple, traceback text, cause chain, process name, hop list and nesting depth of the model; '
+             'Legacy.repaired_eq_spec / F22_witness / C15_ensemble_pinned_partial settle object sharing under pickle\'s memo '
+             '(repaired vs pinned _rebuild_exception). The model '
              'is tied to the current /repo on every run: generated exception graphs go through real '
              'pickle.loads(pickle.dumps(RemoteException(e))) hops and through the compiled Lean definitions (drv remoteexc); '
              'class, args, structure and the FULL remote text of every exception after every hop must be equal; a monitor '
